@@ -4,7 +4,7 @@ import ast
 from ..loader import AnalysisError, norm, walk_shallow
 from ..cfg import build_cfg, node_calls
 from ..affine import Lin, constraints, NotAffine
-from ..poly import V, K, Rat, run_straight_line, NotPoly, ev as pev
+from ..poly import V, K, Rat, run_straight_line, run_stmts, NotPoly, ev as pev
 from ..util import callee_name, all_calls, arg, need, single_def, names_in
 from .. import base_rules
 
@@ -109,16 +109,23 @@ def induction_rule(ctx, rid):
         ctx.touch(m)
         body = [s for s in m.node.body if not (isinstance(s, ast.Expr) and isinstance(s.value, ast.Constant))]
         ok = False
+        upd_names = {"self.update"}
+        while body and isinstance(body[0], ast.Assign) and len(body[0].targets) == 1 and isinstance(body[0].targets[0], ast.Name) and norm(body[0].value) == "self.update":
+            upd_names.add(body[0].targets[0].id)      # bound-method alias
+            body = body[1:]
         if len(body) == 1 and isinstance(body[0], ast.For) and len(body[0].body) == 1 and isinstance(body[0].body[0], ast.Expr) and isinstance(body[0].body[0].value, ast.Call):
             c = body[0].body[0].value
             lp = body[0]
-            if norm(c.func) == "self.update":
+            if norm(c.func) in upd_names:
                 if cls is rs and norm(lp.iter) == m.positional[1] and [norm(a) for a in c.args] == [norm(lp.target)]:
                     ok = True
                 if cls is rc and norm(lp.iter) == "zip(%s, %s)" % (m.positional[1], m.positional[2]) and "(%s)" % ", ".join(norm(a) for a in c.args) == norm(lp.target):
                     ok = True
         if ok:
             rr.ok("%s.%s: self.update once per element, in order" % (cls.name, mname))
+        elif _chunk_loop(ctx, rid, rr, cls, m, *( (inv, {"self.count": n + K(1), "self.mean": (S1 + x) / (n + K(1)), "self.M2": (S2 + x * x) - (S1 + x) * (S1 + x) / (n + K(1))}, [x]) if cls is rs else
+                                                   (inv2, {"self.count": n + K(1), "self.xmean": (Sx + x) / (n + K(1)), "self.ymean": (Sy + y) / (n + K(1)), "self.C": (Sxy + x * y) - (Sx + x) * (Sy + y) / (n + K(1))}, [x, y]) )):
+            pass
         else:
             # a different algorithm: its stores to the accumulators are typed by R2; here it is not the per-element loop
             rr.note("%s.%s is not the per-element loop over update(); its own stores are typed by R2 and, if well-conditioned, the run ends as analysis-incomplete (exactness of a chunk merge is not established by R1)" % (cls.name, mname))
@@ -151,6 +158,78 @@ def induction_rule(ctx, rid):
 
 
 # ---------------------------------------------------------------- D-SHIFT
+def _chunk_loop(ctx, rid, rr, cls, m, inv, nxt, elems):
+    """update_from_it written as: copy the accumulators into locals, one loop
+    over the elements with straight-line rational arithmetic, write the
+    locals back.  Verified by the same polynomial identities as update():
+    (a) the locals start as the accumulators, (b) one iteration takes the
+    whole-sample invariant at n to the invariant at n + 1, (c) the write-back
+    stores each accumulator's own invariant.  Returns False when the method
+    does not have this shape (nothing is claimed then)."""
+    body = [s for s in m.node.body if not (isinstance(s, ast.Expr) and isinstance(s.value, ast.Constant))]
+    loops = [i for i, s in enumerate(body) if isinstance(s, ast.For)]
+    if len(loops) != 1 or body[loops[0]].orelse:
+        return False
+    lp = body[loops[0]]
+    pre, post = body[:loops[0]], body[loops[0] + 1:]
+    params = m.positional[1:]
+    if len(params) != len(elems):
+        return False
+    if len(elems) == 1:
+        if norm(lp.iter) != params[0] or not isinstance(lp.target, ast.Name):
+            return False
+        tnames = [lp.target.id]
+    else:
+        if norm(lp.iter) != "zip(%s)" % ", ".join(params) or not isinstance(lp.target, ast.Tuple) or len(lp.target.elts) != len(elems) or not all(isinstance(t, ast.Name) for t in lp.target.elts):
+            return False
+        tnames = [t.id for t in lp.target.elts]
+    attrs = [k for k in inv if k.startswith("self.")]
+    what = "%s.%s" % (cls.name, m.name)
+    try:
+        env0 = {k: v for k, v in inv.items() if k.startswith("self.")}
+        env1 = run_stmts(pre, env0)
+        mirror = {}
+        for name, val in env1.items():
+            if not name.startswith("self."):
+                for a in attrs:
+                    if val == inv[a]:
+                        mirror.setdefault(name, a)
+        state = dict(mirror)
+        state.update({a: a for a in attrs})
+        env_in = dict(env1)
+        for t, sym in zip(tnames, elems):
+            env_in[t] = sym
+        env2 = run_stmts(lp.body, env_in)
+        written = {k for k in env2 if k in state and not (env2[k] == env_in.get(k))}
+        if not written:
+            return False
+        bad = [k for k in written if not (env2[k] == nxt[state[k]])]
+        if bad:
+            rr.bad(ctx.finding(rid, m, lp, "%s: one iteration of the chunk loop does not take `%s` (the copy of %s) from the whole-sample value at n to the value at n + 1 (polynomial identity fails)" % (what, bad[0], state[bad[0]]), construct="chunk-step " + state[bad[0]]), "%s step" % what)
+        else:
+            rr.ok("%s: one loop iteration maps the whole-sample invariant at n to n + 1 for %s" % (what, sorted(written)))
+        # write-back: accumulators not advanced inside the loop are stale until stored
+        env3 = dict(env1)
+        for a in attrs:
+            if a not in written:
+                env3[a] = V("stale_" + a.split(".")[1])
+        env4 = run_stmts(post, env3)
+        stale = [a for a in attrs if not (env4[a] == inv[a])]
+        advanced = [k for k in written]
+        covered = {state[k] for k in advanced}
+        if covered != set(attrs):
+            rr.bad(ctx.finding(rid, m, lp, "%s: the chunk loop advances %s but not %s" % (what, sorted(covered), sorted(set(attrs) - covered)), construct="chunk-missing " + sorted(set(attrs) - covered)[0]), "%s covers all accumulators" % what)
+        elif stale:
+            rr.bad(ctx.finding(rid, m, post[0] if post else lp, "%s: after the loop `%s` does not receive its own running value (it is stored from another quantity or left stale): every later update and the reported covariance / mean are wrong" % (what, stale[0]), construct="chunk-writeback " + stale[0]), "%s write-back" % what)
+        else:
+            rr.ok("%s: every accumulator receives its own running value after the loop" % what)
+    except NotPoly as e:
+        raise AnalysisError("%s: chunk loop is not straight-line rational code (%s)" % (what, e))
+    except KeyError as e:
+        raise AnalysisError("%s: chunk loop refers to unknown state %s" % (what, e))
+    return True
+
+
 def shift_type(e, env, ctx=None, fi=None):
     """LOC (moves with a common shift of the data), INV (invariant), CNT
     (counts / constants), RAW2 (quadratic in the shift), OTHER."""
